@@ -304,7 +304,7 @@ func runLexer(def lexer.Definition, names map[lexer.TokenType]string, in string,
 			if err != nil {
 				pos, ok := errPos(err)
 				if !ok {
-					sb.WriteString("ERRTYPE ")
+					sb.WriteString("ERRNOPOS ")
 				}
 				fmt.Fprintf(&sb, "ERR@%d:%d:%d", pos.Offset, pos.Line, pos.Column)
 				if pos.Filename != filename {
@@ -367,7 +367,7 @@ func errPos(err error) (lexer.Position, bool) {
 		return e.Pos, true
 	}
 	if e, ok := err.(positioned); ok {
-		return e.Position(), false
+		return e.Position(), true
 	}
 	return lexer.Position{}, false
 }
@@ -453,6 +453,8 @@ func makerByName(n string) lexerMaker {
 		return jsonRulesMaker
 	case "simple":
 		return simpleMaker
+	case "generated":
+		return generatedMaker
 	}
 	return runtimeMaker
 }
@@ -517,8 +519,9 @@ func jsonRulesMaker(c *rawCase) (lexer.Definition, string) {
 
 // lex-static <raw.json> <lines file>: checks of the specification's static lines against the standard library
 // and the real definition:
-//   REGEX|<case>|<state>|<rule index>|<input names>|<end>|<caps>   vs regexp (harness self-check of Regex.tla)
-//   SYMS|<case>|name=num,...                                        vs def.Symbols()
+//
+//	REGEX|<case>|<state>|<rule index>|<input names>|<end>|<caps>   vs regexp (harness self-check of Regex.tla)
+//	SYMS|<case>|name=num,...                                        vs def.Symbols()
 func lexStatic(args []string) error {
 	raw, err := readRaw(args[0])
 	if err != nil {
